@@ -75,7 +75,11 @@ class Prop:
             ops.append(op)
         return {"prop": ID, "seed": seed,
                 "config": {"npool": npool, "read_mod": read_mod, "listen": listen,
-                           "listen_mech": listen_mech},
+                           "listen_mech": listen_mech,
+                           # objects constructed with value=...: the class-level handlers read
+                           # the cached properties (and thereby the container defaults) while
+                           # the object is under construction
+                           "ctor_value": c.choice([None, 5])},
                 "ops": ops}
 
     @staticmethod
@@ -96,7 +100,7 @@ class Prop:
         from traits.observation import api as oapi
         cfg = trace["config"]
         self._pushed = False
-        world = G.World(env, cfg["npool"], classes="PNode")
+        world = G.World(env, cfg["npool"], classes="PNode", ctor_value=cfg.get("ctor_value"))
         world.del_enabled = True
         world.lazy_enabled = False     # pickling materialises defaults: no self-propagating default
         self._world = world
